@@ -34,7 +34,7 @@ def jobs(tier, seed):
     # the repository's own fixture definitions under generated outcomes, schedules and requests
     js += [dict(fn="corpus", parts=4, part=i, runs=scale(tier, 4, 40), gseed=seed, ctl=dict(req=0.08, max_req=3, crash=0.04, early_render=0.3), name="corpus") for i in range(4)]
     # decision-shape family (exhaustive in the thorough tier, a rotating slice in the quick tier): every acyclic edge set over 4 tasks with a join x condition succeeded/failed per edge x outcome per task (4128 definitions)
-    js += family_slices("ctl_sweep", 4128, 24, tier, seed + 3, parts=6, gen="cshape", modes=["pause", "cancel"], p_fail=0.0, name="decision-shapes-sweep")
+    js += family_slices("ctl_sweep", 4128, 24, tier, seed + 3, parts=12, gen="cshape", modes=["pause", "cancel"], p_fail=0.0, name="decision-shapes-sweep")
     return js
 
 
